@@ -156,6 +156,14 @@ def t5_key_shape(ctx) -> None:
 
 
 # ------------------------------------------------------------------------ T6
+def PT_assign(st):
+    if isinstance(st, ast.Assign) and len(st.targets) == 1:
+        return st.targets[0], st.value
+    if isinstance(st, ast.AnnAssign):
+        return st.target, st.value
+    return None, None
+
+
 def t6_protocol(ctx) -> None:
     P = ctx.P
     rd = P.need_class("RecomputingDict")
@@ -166,6 +174,16 @@ def t6_protocol(ctx) -> None:
         else:
             ctx.violation("T6", rd.node, f"RecomputingDict lacks {m}: the store protocol used by RuleDBBase is incomplete "
                           "(a mix-in default would iterate/compare unflattened keys)", construct=f"RecomputingDict.{m}")
+    # the keys are held in a set: a key stored twice is one key (a dict has each key once)
+    init = P.need_method("RecomputingDict", "__init__", own=True)
+    kinds = [norm(v) for st in walk_local(init.node) for t, v in [PT_assign(st)] if t is not None and is_self_attr(t, "rules") and v is not None]
+    adders = [c for m_ in rd.methods.values() for c in walk_local(m_.node) if isinstance(c, ast.Call) and isinstance(c.func, ast.Attribute)
+              and is_self_attr(c.func.value, "rules") and c.func.attr in ("append", "extend", "insert", "add", "update")]
+    if kinds and all(k in ("set()", "set([])") for k in kinds) and all(c.func.attr in ("add", "update") for c in adders):
+        ctx.ok("T6", "RecomputingDict keeps its keys in a set")
+    else:
+        ctx.violation("T6", init.node, f"RecomputingDict.rules is `{kinds[0] if kinds else '?'}` filled by {sorted({c.func.attr for c in adders})}: the keys of a mapping are a set -- in a list a "
+                      "rule recorded twice is listed twice, counted twice and survives being deleted once, which the default database (a dict) never shows", construct="RecomputingDict.rules kind")
     if "MutableMapping" not in rd.base_names:
         ctx.violation("T6", rd.node, "RecomputingDict is no longer a MutableMapping (pop/==/keys come from the mix-in)", construct="RecomputingDict bases")
     # flatten / unflatten inverse pair
